@@ -544,7 +544,15 @@ func syncAndJudge(k *mon.Case, a, b *node.Node, remote *p2p.AddrInfo, ev *evil, 
 	}
 	// B's tip arrives at A from that peer
 	tipB := node.CloneBlock(b.Tip())
-	perr := a.Exec.VerifProcess(context.Background(), tipB, remote.ID)
+	// harness-level bound on one sync (not a verdict): a peer that keeps answering with empty
+	// segments makes the downloader ask forever, which is property C09's subject
+	bound := 45 * time.Second
+	if mode == "truncated" {
+		bound = 15 * time.Second
+	}
+	pctx, pcancel := context.WithTimeout(context.Background(), bound)
+	perr := a.Exec.VerifProcess(pctx, tipB, remote.ID)
+	pcancel()
 	wit := map[string]any{"mode": mode, "prefix": prefix, "fork_a": forkA, "ahead_b": ahead, "validators": nv, "a_tip_after": a.Tip().Header.Height, "b_tip": b.Tip().Header.Height, "finalized_a": finA, "process_error": fmt.Sprint(perr), "phase": tag}
 	// finalized blocks of A never replaced
 	for h, id := range finalIDs {
